@@ -10,7 +10,7 @@ rsync -a --exclude .git --exclude replays /verif/ $base/verif/
 cd $base/verif
 export CLEMATIS3_REPO=$base/repo
 res=$base/results.jsonl; : > $res
-for d in /verif/seeded/C*_*; do
+for d in /verif/seeded/${SEEDED_GLOB:-C*_*}; do
   id=$(basename $d); prop=$(python3 -c "import json;print(json.load(open('$d/meta.json'))['property'])")
   git -C $base/repo checkout -q -- . ; git -C $base/repo clean -fdq -- clematis configs scripts
   if ! git -C $base/repo apply $d/patch.diff 2>/dev/null; then echo "{\"id\":\"$id\",\"applies\":false}" >> $res; echo "$id patch-does-not-apply"; continue; fi
@@ -26,6 +26,14 @@ git -C /repo worktree remove --force $base/repo
 python3 - <<PY
 import json
 rows=[json.loads(l) for l in open("$res")]
+import os
+old=[]
+if os.path.exists("/verif/seeded/RESULTS.json"):
+    old=json.load(open("/verif/seeded/RESULTS.json")).get("results",[])
+new_keys={(r["id"],r.get("check")) for r in rows}
+new_ids={r["id"] for r in rows}
+rows=[r for r in old if (r["id"],r.get("check")) not in new_keys and not (r["id"] in new_ids and not r.get("applies",True))]+rows
+rows.sort(key=lambda r:(r["id"],r.get("check") or ""))
 json.dump({"tier":"$tier","note":"each seeded change applied to a scratch worktree of /repo HEAD; checks run with CLEMATIS3_REPO pointing at it","results":rows}, open("/verif/seeded/RESULTS.json","w"), indent=1)
 PY
 rm -rf $base/verif
